@@ -194,29 +194,63 @@ func MatchLitRune(l, c rune, ci bool) bool {
 	return false
 }
 
-// MatchClass reports whether input rune c is matched by the class (before negation).
-func MatchItems(items []Item, c rune, ci bool) bool {
+// documentedCIRange: the shape the documentation shows ([[A-Z]]): both bounds letters of one
+// case, or neither bound affected by case folding.
+func documentedCIRange(it Item) bool {
+	caseless := func(r rune) bool { return unicode.ToLower(r) == r && unicode.ToUpper(r) == r }
+	if caseless(it.Lo) && caseless(it.Hi) {
+		return true
+	}
+	return (unicode.IsLower(it.Lo) && unicode.IsLower(it.Hi)) || (unicode.IsUpper(it.Lo) && unicode.IsUpper(it.Hi))
+}
+
+// ClassMatch reports whether input rune c is matched by the class members (before negation).
+// For a case-insensitive range whose bounds mix cased and caseless characters (e.g. [[a-~]])
+// the documentation does not say which of two readings is meant - "c or its case variants lie
+// in the range" or "c lies in the range with lower-cased bounds or in the range with
+// upper-cased bounds"; where the two readings disagree the answer is unspecified.
+func ClassMatch(items []Item, c rune, ci bool) (match, unspecified bool) {
 	for _, it := range items {
 		if it.Lo <= c && c <= it.Hi {
-			return true
-		}
-		if ci {
-			if it.Lo == it.Hi {
-				if MatchLitRune(it.Lo, c, true) {
-					return true
-				}
-				continue
-			}
-			// documented: [[A-Z]] is the case-insensitive class; generated ranges have
-			// both bounds letters of one case, or no letters at all
-			ll, lh := unicode.ToLower(it.Lo), unicode.ToLower(it.Hi)
-			ul, uh := unicode.ToUpper(it.Lo), unicode.ToUpper(it.Hi)
-			if (ll <= c && c <= lh) || (ul <= c && c <= uh) {
-				return true
-			}
+			return true, false
 		}
 	}
-	return false
+	if !ci {
+		return false, false
+	}
+	for _, it := range items {
+		if it.Lo == it.Hi {
+			if MatchLitRune(it.Lo, c, true) {
+				return true, false
+			}
+			continue
+		}
+		ll, lh := unicode.ToLower(it.Lo), unicode.ToLower(it.Hi)
+		ul, uh := unicode.ToUpper(it.Lo), unicode.ToUpper(it.Hi)
+		folded := (ll <= c && c <= lh) || (ul <= c && c <= uh)
+		if documentedCIRange(it) {
+			if folded {
+				return true, false
+			}
+			continue
+		}
+		in := func(x rune) bool { return it.Lo <= x && x <= it.Hi }
+		variants := in(unicode.ToLower(c)) || in(unicode.ToUpper(c))
+		if folded != variants {
+			unspecified = true
+			continue
+		}
+		if folded {
+			return true, false
+		}
+	}
+	return false, unspecified
+}
+
+// MatchItems is ClassMatch without the unspecified flag (classes of documented shape).
+func MatchItems(items []Item, c rune, ci bool) bool {
+	m, _ := ClassMatch(items, c, ci)
+	return m
 }
 
 // ---------------------------------------------------------------------------------
